@@ -17,7 +17,10 @@ use crate::report::{Alarm, Report};
 use crate::trk::{rec_trk, RecTrk};
 use crate::util::J;
 
-type Comp = CompositeTracker<RecTrk, CompositeTracker<EventTracker, RecTrk>>;
+/// Three full recorders at tree positions reached through (first), (second, first) and (second, second, second): a
+/// forwarding slip that affects only the first or only the second child of a CompositeTracker makes at least two of
+/// them differ (a single nested pair would let a slip applied twice cancel out).
+type Comp = CompositeTracker<RecTrk, CompositeTracker<RecTrk, CompositeTracker<EventTracker, RecTrk>>>;
 
 fn recorded_kind(m: TM) -> bool {
   matches!(m, TM::BuildStart | TM::BuildEnd | TM::RequireStart | TM::RequireEnd | TM::ReadStart | TM::ReadEnd | TM::WriteStart | TM::WriteEnd | TM::ExecuteStart | TM::ExecuteEnd)
@@ -131,7 +134,7 @@ pub fn run_case(case: &Case, rep: &mut Report, seed: u64, case_no: u64, class: &
   crate::log::clear();
   crate::cell::faults_reset();
   let prog = Rc::new(case.prog.clone());
-  let tracker: Comp = CompositeTracker(rec_trk(), CompositeTracker(EventTracker::default(), rec_trk()));
+  let tracker: Comp = CompositeTracker(rec_trk(), CompositeTracker(rec_trk(), CompositeTracker(EventTracker::default(), rec_trk())));
   let mut drv: Driver<Comp> = Driver::new(prog.clone(), &case.init, tracker);
   let keys = Keys {
     tasks: (0..prog.n_tasks() as u32).map(|t| (format!("T{}", t), Box::new(Prog { id: t, table: prog.clone() }) as Box<dyn KeyObj>)).collect(),
@@ -158,14 +161,17 @@ pub fn run_case(case: &Case, rep: &mut Report, seed: u64, case_no: u64, class: &
     };
     let t = drv.pie.tracker();
     let r1: &Vec<TrkEv> = &(t.0).0 .0;
-    let et: &EventTracker = &(t.1).0;
-    let r2: &Vec<TrkEv> = &((t.1).1).0 .0;
+    let r2: &Vec<TrkEv> = &((t.1).0).0 .0;
+    let et: &EventTracker = &((t.1).1).0;
+    let r3: &Vec<TrkEv> = &(((t.1).1).1).0 .0;
     for e in r1.iter() { seen.insert(e.m); }
-    // 1. composite: identical streams
-    if r1 != r2 {
-      let k = r1.iter().zip(r2.iter()).position(|(a, b)| a != b).unwrap_or(r1.len().min(r2.len()));
-      raise(rep, "composite-streams-differ".into(), format!("the two children of a CompositeTracker saw different streams: first difference at event {}: {:?} vs {:?}", k, r1.get(k), r2.get(k)), si);
-      return;
+    // 1. composite: identical streams at all three positions
+    for (name, other) in [("(second, first)", r2), ("(second, second, second)", r3)] {
+      if r1 != other {
+        let k = r1.iter().zip(other.iter()).position(|(a, b)| a != b).unwrap_or(r1.len().min(other.len()));
+        raise(rep, "composite-streams-differ".into(), format!("recorders at positions (first) and {} of nested CompositeTrackers saw different streams: first difference at event {}: {:?} vs {:?}", name, k, r1.get(k), other.get(k)), si);
+        return;
+      }
     }
     if rec.aborted.is_some() { continue; }
     // 2. EventTracker: stored events = projection of the stream since the last build_start
@@ -196,7 +202,8 @@ pub fn run_case(case: &Case, rep: &mut Report, seed: u64, case_no: u64, class: &
     // keep memory bounded: the recorders are append-only; restart them per session
     let t = drv.pie.tracker_mut();
     (t.0).0 .0.clear();
-    ((t.1).1).0 .0.clear();
+    ((t.1).0).0 .0.clear();
+    (((t.1).1).1).0 .0.clear();
   }
   for m in seen { rep.seen("tracker_methods_forwarded", format!("{:?}", m)); }
   rep.add("helper_calls_compared", helper_calls);
